@@ -35,6 +35,10 @@ def check(report, tier, only=None):
     try:
         from props import C07_e2
         C07_e2.check(report, tier, only)
+        # the frame length prefix is 4 bytes big endian for every configuration (a prefix width that depends on max_frame_size changes the wire format)
+        from props import C15
+        if not only or any(s in 'codec_built' for s in only):
+            C15.ob_codec_wiring(report)
     except ImportError:
         pass
 
